@@ -56,7 +56,7 @@ CLAIMS = {
   "note": POOL_NOTE,
   "technique": POOL_TECH},
  "C16": {
-  "text": 'Theorems (Props/C16.v, 16, closed): for ANY sequence of full/incremental updates, removals, clears, model changes and non-compiling texts, the master copy and EVERY instance hold exactly the denoted rule set (invariant of C08 each), cleared flag and model as denoted, queries agree, failed operations change nothing, clear followed by full or incremental update restores service; and — the execution MODEL in use made observable (Pool/Compose.v) — with a rule that always fails in the set, the result an execution hands back is the one Engine/Spec.v assigns to the denoted model on the denoted set: sort / concurrent return the non-failing rules, mix returns nothing when the top rule fails, the models are told apart (C16_sort_and_mix_models_are_told_apart). Tie: T3 update shapes + ~95 histories (all sequences of length <= 2 over 5 operation kinds, resubmitted texts, emptied-then-cleared pools, lexer-noise texts, the failing probe rule as top / middle / lowest rule under each of the 4 models, random), after every operation: master and per-instance containers and index maps by reflection, all queries, an execution forced onto every instance through the sort-model wrapper AND one through the *SpecifiedEM wrapper (max held requests each), compared inside Coq with the model of the history.',
+  "text": 'Theorems (Props/C16.v, 16, closed): for ANY sequence of full/incremental updates, removals, clears, model changes and non-compiling texts, the master copy and EVERY instance hold exactly the denoted rule set (invariant of C08 each), cleared flag and model as denoted, queries agree, failed operations change nothing, clear followed by full or incremental update restores service (no management call or query can put the pool out of service: T2 per-run obligation GenWaitOk.v — no mutex still held at a return, one acquisition order — for the system Pool/Progress.v proves deadlock-free); and — the execution MODEL in use made observable (Pool/Compose.v) — with a rule that always fails in the set, the result an execution hands back is the one Engine/Spec.v assigns to the denoted model on the denoted set: sort / concurrent return the non-failing rules, mix returns nothing when the top rule fails, the models are told apart (C16_sort_and_mix_models_are_told_apart). Tie: T3 update shapes + ~95 histories (all sequences of length <= 2 over 5 operation kinds, resubmitted texts, emptied-then-cleared pools, lexer-noise texts, the failing probe rule as top / middle / lowest rule under each of the 4 models, random), after every operation: master and per-instance containers and index maps by reflection, all queries, an execution forced onto every instance through the sort-model wrapper AND one through the *SpecifiedEM wrapper (max held requests each), compared inside Coq with the model of the history.',
   "note": POOL_NOTE,
   "technique": POOL_TECH},
  "C17": {
